@@ -10,6 +10,7 @@ for canonical_expr_equal(a, b) == True, evaluation of a and b.
 from __future__ import annotations
 
 import json
+import os
 import random
 
 from .. import common as C
@@ -17,20 +18,26 @@ from .. import enc_expr as X
 from .. import gen_expr as GE
 
 PROP = "C10"
-RULE = ("type-directed random expressions (depth<=5, pool of 3-5 names; joint / conditional / interventional / "
+RULE = ("(a) structured stream over a common pool of factors (harness/gen_expr.py struct_*): Sums over parent-less joint "
+        "leaves in every range mode (equal / superset / subset / partial / miss) x {P, PP[pi1], PP[pi2]} x wrapper "
+        "(bare, product, numerator, denominator, outer sum), interventional and starred children, leaves that only appear "
+        "after canonicalising the summand; compound fractions whose division cross-multiplies into x/x, x/1, 1/x or leaves "
+        "shared / repeated factors; products that only appear after canonicalisation; first-child ties; sibling factors "
+        "differing in one deep position; pairs of independent presentations of the same ratio for canonical_expr_equal. "
+        "(b) type-directed random expressions (depth<=5, pool of 3-5 names; joint / conditional / interventional / "
         "population-tagged leaves, -X/+X values; sums whose ranges cover / contain / are contained in / overlap / miss the "
         "children; fractions of fractions; One/Zero inside products and sums; raw dataclass objects, i.e. unsorted and "
         "nested products) x orderings (None, shuffled covering, non-covering) for canonicalize; pairs (expression, "
         "presentation-shuffle / independent / mutated expression) for canonical_expr_equal; `den` cross-check of the Lean "
-        "specification against the Python evaluator. 70% of the stream is WellScoped (the property's quantifier, judged by "
-        "the oracle), 30% is wild (multi-world leaves, duplicate names, bound +X, Q-factors: correspondence only). "
-        "A case is non-trivial when the expression has depth>=3 and at least one Sum or Fraction and its canonical form "
-        "differs structurally from the input.")
+        "specification against the Python evaluator. 70% of the random stream is WellScoped (the property's quantifier, "
+        "judged by the oracle), 30% is wild (multi-world leaves, duplicate names, bound +X, Q-factors: correspondence only). "
+        "The branches reached on the real canonicaliser are counted as hit_* tags. A case is non-trivial when the "
+        "expression has depth>=3 and at least one Sum or Fraction and its canonical form differs structurally from the input.")
 ASSUMPTIONS = [
     "canon_den is proved for WellScoped expressions (single-world leaves with pairwise distinct names, intervened names disjoint from the leaf's own variables, no +X bound by an enclosing Sum, no Q-factor) and orderings covering the event names, under ProbFamily env and non-vanishing denominators (DenNonzero, implied by Env.Positive for expressions without Zero() in a denominator); multi-world joint terms are outside the quantifier (Sum.simplify's own FIXME)",
     "the Lean theorems are about the hand-written model Y0.Model.Canon/Dsl; the tie to canonicalize_expr.py/dsl.py is this run's correspondence check (sampling)",
     "Python set/frozenset iteration order is modelled as sorted order; populations are plain variables; Sum ranges are plain variables (what Sum.__post_init__ and the builders produce)",
-    "the oracle decides semantic equality by identity testing on 2-3 random positive environments x 3 valuations (exact rationals): it cannot flag a correct rewrite, it can miss an incorrect one with small probability",
+    "the oracle decides semantic equality by identity testing on 2 generic positive environments (drawn per case from a per-process pool of 12 cached mixture-of-products environments, a separate distribution per population and per world) x 3 random valuations (exact rationals): it cannot flag a correct rewrite, it can miss an incorrect one with small probability",
 ]
 LEANCHECK_MODULES = ["Y0.Model.Dsl", "Y0.Model.Canon", "Y0.Props.C10"]
 EXHAUSTIVE = {"quick": False, "thorough": False}
@@ -80,9 +87,60 @@ def _load_corpus():
     return [json.loads(f.read_text()) for f in files]
 
 
+def _rand_ordering_choice(rng, e, n_names):
+    o = rng.random()
+    if o < 0.45:
+        return None
+    if o < 0.93:
+        return GE.rand_ordering(rng, e, n_names, covering=True)
+    return GE.rand_ordering(rng, e, n_names, covering=False)
+
+
+def structured_cases(rng: random.Random, n: int):
+    """pool-based structured stream (see gen_expr: compound fractions cancelling to x/x, x/1, 1/x; products that appear
+    after canonicalisation; first-child ties; shared names across worlds; Sums over (population-tagged / interventional)
+    joint leaves with every range mode, systematically)"""
+    out = []
+    # systematic: every range mode x {P, PP[pi1], PP[pi2]} x wrapper, a few instances each
+    for mode in GE.SUM_MODES:
+        for pop in (False, GE.POPS[0], GE.POPS[1]):
+            for wrap in ("none", "prod", "num", "den", "sum"):
+                for _ in range(max(1, n // 400)):
+                    nn = rng.choice([3, 4, 4, 5])
+                    e, lab = GE.struct_sum_leaf(rng, nn, mode=mode, pop=pop, wrap=wrap)
+                    out.append({"kind": "canon", "e": e, "ordering": _rand_ordering_choice(rng, e, nn),
+                                "seed": rng.randrange(1 << 30), "gen": lab})
+    while len(out) < n:
+        nn = rng.choice([3, 4, 4, 5])
+        r = rng.random()
+        if r < 0.7:
+            e, lab = GE.struct_expr(rng, nn)
+            out.append({"kind": "canon", "e": e, "ordering": _rand_ordering_choice(rng, e, nn),
+                        "seed": rng.randrange(1 << 30), "gen": lab})
+        elif r < 0.85:
+            a, b, lab = GE.struct_ratio_pair(rng, nn)
+            out.append({"kind": "equal", "a": a, "b": b, "seed": rng.randrange(1 << 30), "gen": "pair:" + lab})
+        elif r < 0.95:
+            e, lab = GE.struct_expr(rng, nn)
+            out.append({"kind": "equal", "a": e, "b": GE.present_shuffle(rng, e), "seed": rng.randrange(1 << 30),
+                        "gen": "shuffle:" + lab})
+        else:
+            e, lab = GE.struct_expr(rng, nn)
+            out.append({"kind": "den", "e": e, "seed": rng.randrange(1 << 30), "gen": lab})
+    return out
+
+
 def cases(rng: random.Random, tier: str):
+    if os.environ.get("VERIF_EXPR_FAST_SEARCH") == "1":
+        tier = "quick"      # tools/mutate_expr.py only: keeps the runner's extended search at the size of the quick stream
     out = _load_corpus()
-    n = 12000 if tier == "quick" else 80000
+    out += structured_cases(rng, 3000 if tier == "quick" else 15000)
+    out += random_cases(rng, 5000 if tier == "quick" else 65000)
+    return out
+
+
+def random_cases(rng: random.Random, n: int):
+    out = []
     for i in range(n):
         ws = rng.random() < 0.7
         cfg = GE.GenCfg(n_names=rng.choice([3, 4, 4, 5]), max_depth=rng.choice([2, 3, 4, 4, 5, 5]), well_scoped=ws,
@@ -90,14 +148,8 @@ def cases(rng: random.Random, tier: str):
         e = GE.gen_expr(rng, cfg)
         r = rng.random()
         if r < 0.72:
-            o = rng.random()
-            if o < 0.45:
-                ordering = None
-            elif o < 0.93:
-                ordering = GE.rand_ordering(rng, e, cfg.n_names, covering=True)
-            else:
-                ordering = GE.rand_ordering(rng, e, cfg.n_names, covering=False)
-            out.append({"kind": "canon", "e": e, "ordering": ordering, "seed": rng.randrange(1 << 30)})
+            out.append({"kind": "canon", "e": e, "ordering": _rand_ordering_choice(rng, e, cfg.n_names),
+                        "seed": rng.randrange(1 << 30)})
         elif r < 0.9:
             m = rng.random()
             if m < 0.5:
@@ -148,12 +200,17 @@ def _in_quantifier(e, ordering):
     return True
 
 
-def _tags(e, extra=None):
+def _tags(e, extra=None, case=None, feats=True):
     t = {"depth": GE.depth(e), "well_scoped": GE.well_scoped(e)}
     for k, v in GE.constructors(e).items():
         t["has_" + str(k)] = True
     if extra:
         t.update(extra)
+    if case is not None:
+        t["gen"] = case.get("gen", "random").split(":")[0]
+        if feats:
+            for f in GE.features(e, case.get("ordering")):
+                t["hit_" + f] = True
     return t
 
 
@@ -180,14 +237,14 @@ def run_python(case):
             if inq:
                 fail = f"canonicalize raised {type(ex).__name__} on a well-scoped expression with a covering ordering"
         if c is not None and inq:
-            w = E.identity_test(e, c, rng, n_envs=2, n_sigma=3)
+            w = E.identity_test(e, c, rng, n_envs=2, n_sigma=3, shared=True)
             if w is not None:
                 fail = f"canonical form {c} denotes a different function than {e}: {json.dumps(w, sort_keys=True)}"
         nontrivial = bool(c is not None and GE.depth(enc) >= 3 and ("sum" in GE.constructors(enc) or "frac" in GE.constructors(enc))
                           and X.to_str_tree(enc) != out[1])
         return {"out": out, "fail": fail, "nontrivial": nontrivial,
                 "tags": _tags(enc, {"kind": kind, "outcome": out[0], "judged": inq,
-                                    "ordering": "none" if case["ordering"] is None else "explicit"})}
+                                    "ordering": "none" if case["ordering"] is None else "explicit"}, case)}
     if kind == "equal":
         a, b = X.dec_expr(case["a"]), X.dec_expr(case["b"])
         fail = None
@@ -198,11 +255,11 @@ def run_python(case):
             r = None
             out = ["err"]
         if r and _in_quantifier(case["a"], None) and _in_quantifier(case["b"], None):
-            w = E.identity_test(a, b, rng, n_envs=2, n_sigma=3)
+            w = E.identity_test(a, b, rng, n_envs=2, n_sigma=3, shared=True)
             if w is not None:
                 fail = f"canonical_expr_equal({a}, {b}) is True but the expressions differ: {json.dumps(w, sort_keys=True)}"
         return {"out": out, "fail": fail, "nontrivial": bool(r) and case["a"] != case["b"],
-                "tags": _tags(case["a"], {"kind": kind, "outcome": out[0] if r is None else out[1]})}
+                "tags": _tags(case["a"], {"kind": kind, "outcome": out[0] if r is None else out[1]}, case)}
     if kind == "ws":   # the quantifier predicate itself: Python mirror vs Lean `WellScoped`
         return {"out": ["ok", "true" if GE.well_scoped(case["e"]) else "false"], "fail": None, "nontrivial": False,
                 "tags": _tags(case["e"], {"kind": kind})}
@@ -289,7 +346,7 @@ def shrink(case):
 
 def finding_key(case, res):
     c = {k: case[k] for k in ("kind", "e", "ordering", "a", "b") if k in case}
-    return json.dumps(GE.alpha_normalise(c), sort_keys=True)
+    return json.dumps(GE.alpha_normalise(c), sort_keys=True)   # ("gen" labels are not part of the key)
 
 
 MANIFEST = {
